@@ -78,7 +78,7 @@ def near_variants(p):
             out.add(p[len(pre):])
         out.add(pre + "/" + p)
         out.add(pre + p)
-    return [x for x in out if x and not x.startswith("/")]
+    return sorted(x for x in out if x and not x.startswith("/"))
 
 
 def rand_case(rng):
@@ -87,7 +87,7 @@ def rand_case(rng):
     item_link = link_from_states("item", states)
     refs = ["ref0", "ref1"][:rng.randrange(0, 3)]
     links = {"item": item_link}
-    derived = rng.random() < 0.5
+    derived = rng.random() < 0.6
     for r in refs:
         if rng.random() < 0.15:
             continue     # referenced step without a link
